@@ -9,6 +9,7 @@ import (
 	"fmt"
 	"io"
 	"strings"
+	"time"
 
 	"google.golang.org/grpc/metadata"
 	"google.golang.org/protobuf/proto"
@@ -19,6 +20,7 @@ import (
 	"github.com/openconfig/gnmi/testing/fake/queue"
 	"github.com/openconfig/gnmi/zzverif/seqmc"
 	"github.com/openconfig/gnmi/zzverif/vrand"
+	"github.com/openconfig/gnmi/zzverif/vrt"
 )
 
 const baseHorizon = 30
@@ -50,6 +52,9 @@ func (v vspec) String() string {
 
 func (v vspec) build(name string) *fpb.Value {
 	out := &fpb.Value{Path: []string{name}, Timestamp: &fpb.Timestamp{Timestamp: v.ts, DeltaMin: v.dmin, DeltaMax: v.dmax}, Repeat: v.repeat, Seed: v.seed}
+	if v.ts < 0 {
+		out.Timestamp = nil // timestamp not configured: zero, no steps
+	}
 	switch v.kind {
 	case 0:
 		out.Value = &fpb.Value_IntValue{IntValue: &fpb.IntValue{Value: 1, Distribution: &fpb.IntValue_Range{Range: &fpb.IntRange{Minimum: 0, Maximum: 3}}}}
@@ -121,6 +126,14 @@ func grid(tier string) []cfgCase {
 	for _, v := range single {
 		for _, gs := range []int64{1, 2} {
 			out = append(out, cfgCase{[]vspec{v}, gs})
+		}
+	}
+	// values whose timestamp is not configured at all, alone and next to a
+	// stamped value
+	for _, k := range []int{16, 5, 15, 0} {
+		for _, rep := range []int32{0, 1, 2} {
+			u := vspec{k, -1, 0, 0, rep, 0}
+			out = append(out, cfgCase{[]vspec{u}, 1}, cfgCase{[]vspec{u, {16, 5, 1, 1, 2, 0}}, 1}, cfgCase{[]vspec{{16, 0, 1, 1, 2, 0}, u}, 2})
 		}
 	}
 	var red []vspec
@@ -300,8 +313,8 @@ func check(c cfgCase, seq []*fpb.Value, ended bool, err error) []seqmc.Violation
 			if step < spec.dmin || step > spec.dmax {
 				return vio("timestamp-step", "%v: %s stepped by %d, delta bounds [%d,%d]", c, name, step, spec.dmin, spec.dmax)
 			}
-		} else if ts != spec.ts {
-			return vio("initial-timestamp", "%v: first emission of %s at %d, configured %d", c, name, ts, spec.ts)
+		} else if want := spec.ts; ts != want && !(want < 0 && ts == 0) {
+			return vio("initial-timestamp", "%v: first emission of %s at %d, configured %d (-1: not configured, i.e. 0)", c, name, ts, spec.ts)
 		}
 		count[name]++
 		lastTS[name] = ts
@@ -399,6 +412,9 @@ func specGrid(tier string) seqmc.Spec {
 		}
 		// --- seeded mode: reproducibility and the same invariants
 		a, ea, erra := run(c)
+		// the second generator is built an hour later: wall-clock time must not
+		// leak into the stream
+		vrt.Advance(time.Hour)
 		b, _, errb := run(c)
 		if v := check(c, a, ea, erra); v != nil {
 			return desc, true, v
@@ -409,13 +425,26 @@ func specGrid(tier string) seqmc.Spec {
 		// ... and two generators built one after the other from the SAME
 		// configuration object (as the fake agent does on every reset / Subscribe)
 		shared := c.values()
-		before := render(shared)
+		// (an absent timestamp filled in as the empty one is not a modification:
+		// both mean zero with no steps)
+		norm := func(vs []*fpb.Value) string {
+			var cp []*fpb.Value
+			for _, v := range vs {
+				x := proto.Clone(v).(*fpb.Value)
+				if x.Timestamp == nil {
+					x.Timestamp = &fpb.Timestamp{}
+				}
+				cp = append(cp, x)
+			}
+			return render(cp)
+		}
+		before := norm(shared)
 		s1, _, e1 := runWith(c, shared)
 		s2, _, e2 := runWith(c, shared)
 		if render(s1) != render(s2) || (e1 == nil) != (e2 == nil) {
 			return desc, true, vio("not-reproducible-same-config-object", "%v: a second generator built from the same configuration object (after the first was drained) emitted a different sequence: first %d emissions, second %d", c, len(s1), len(s2))
 		}
-		if render(shared) != before {
+		if norm(shared) != before {
 			return desc, true, vio("generator-mutates-configuration", "%v: running a generator modified the configuration it was built from", c)
 		}
 		// --- through the fake agent (finite configurations only)
